@@ -356,6 +356,333 @@ func c09SentChain(k *jwk.Key, sentJWK map[string]any) string {
 }
 
 // ---------------------------------------------------------------------------------------------
+// base64url spellings (independent decoder with goat's documented tolerance)
+
+const c09urlAlphabet = "ABCDEFGHIJKLMNOPQRSTUVWXYZabcdefghijklmnopqrstuvwxyz0123456789-_"
+
+// c09B64Decode: RFC 4648 §5 without padding, written by hand.  Tolerance of goat's jsonutils (base64.RawURLEncoding,
+// non-strict): CR and LF anywhere are skipped; non-zero trailing bits are ignored; '=' padding, the standard
+// alphabet characters '+' '/' and every other character are errors; 4k+1 significant characters are an error.
+func c09B64Decode(s string) ([]byte, bool) {
+	var sext []byte
+	for i := 0; i < len(s); i++ {
+		ch := s[i]
+		if ch == '\r' || ch == '\n' {
+			continue
+		}
+		v := strings.IndexByte(c09urlAlphabet, ch)
+		if v < 0 {
+			return nil, false
+		}
+		sext = append(sext, byte(v))
+	}
+	if len(sext)%4 == 1 {
+		return nil, false
+	}
+	out := make([]byte, 0, len(sext)*3/4)
+	for i := 0; i+1 < len(sext); i += 4 {
+		q := sext[i:]
+		out = append(out, q[0]<<2|q[1]>>4)
+		if len(q) > 2 {
+			out = append(out, q[1]<<4|q[2]>>2)
+		}
+		if len(q) > 3 {
+			out = append(out, q[2]<<6|q[3])
+		}
+	}
+	return out, true
+}
+
+var c09B64Members = map[string][]string{"ec": {"x", "y", "d"}, "rsa": {"n", "e", "d", "p", "q", "dp", "dq", "qi"},
+	"okp": {"x", "d"}, "oct": {"k"}}
+
+var c09Spellings = func() []string {
+	out := []string{"plain", "pad1", "pad2", "stdalpha", "trailbits", "space", "tab"}
+	for _, brk := range []string{"cr", "lf", "crlf"} {
+		for _, pos := range []string{"start", "middle", "lastq", "end", "twice"} {
+			out = append(out, brk+"@"+pos)
+		}
+	}
+	return out
+}()
+
+// c09Spell re-spells the base64url text of the octets b.
+func c09Spell(b []byte, spelling string) string {
+	text := c08b64.EncodeToString(b)
+	brk := map[string]string{"cr": "\r", "lf": "\n", "crlf": "\r\n"}
+	ins := func(t string, at int, what string) string {
+		if at < 0 {
+			at = 0
+		}
+		if at > len(t) {
+			at = len(t)
+		}
+		return t[:at] + what + t[at:]
+	}
+	switch spelling {
+	case "plain":
+		return text
+	case "pad1":
+		return text + "="
+	case "pad2":
+		return text + "=="
+	case "space":
+		return ins(text, len(text)/2, " ")
+	case "tab":
+		return ins(text, len(text)/2, "\t")
+	case "stdalpha":
+		if !strings.ContainsAny(text, "-_") && len(b) > 0 {
+			bb := append([]byte{}, b...)
+			bb[0] = 0xfb // encodes to '-' …
+			text = c08b64.EncodeToString(bb)
+		}
+		return strings.NewReplacer("-", "+", "_", "/").Replace(text)
+	case "trailbits":
+		if len(text)%4 >= 2 {
+			last := strings.IndexByte(c09urlAlphabet, text[len(text)-1])
+			return text[:len(text)-1] + string(c09urlAlphabet[last|1])
+		}
+		return text
+	}
+	parts := strings.SplitN(spelling, "@", 2)
+	w := brk[parts[0]]
+	lastq := len(text) - ((len(text)-1)%4 + 1)
+	switch parts[1] {
+	case "start":
+		return ins(text, 0, w)
+	case "middle":
+		return ins(text, len(text)/2, w)
+	case "lastq":
+		return ins(text, lastq, w)
+	case "end":
+		return ins(text, len(text), w)
+	case "twice":
+		return ins(ins(text, lastq, w), len(text)/3, w)
+	}
+	return text
+}
+
+// c09IndependentJWK decides, from the JWK text alone and with independent references, whether a parser with goat's
+// documented base64 tolerance must accept the key, and returns the octets of every base64url member.
+func c09IndependentJWK(j map[string]any) (accept bool, why string, vals map[string][]byte) {
+	vals = map[string][]byte{}
+	kty, _ := j["kty"].(string)
+	kind := map[string]string{"EC": "ec", "RSA": "rsa", "OKP": "okp", "oct": "oct"}[kty]
+	for _, name := range c09B64Members[kind] {
+		v, has := j[name]
+		if !has {
+			continue
+		}
+		str, ok := v.(string)
+		if !ok {
+			return false, name + " is not a string", vals
+		}
+		b, ok := c09B64Decode(str)
+		if !ok {
+			return false, name + " is not base64url", vals
+		}
+		vals[name] = b
+	}
+	bigOf := func(n string) *big.Int {
+		if b, ok := vals[n]; ok {
+			return new(big.Int).SetBytes(b)
+		}
+		return nil
+	}
+	crv, _ := j["crv"].(string)
+	switch kind {
+	case "okp":
+		req := c08OKPLen(crv)
+		x, hasX := vals["x"]
+		if !hasX || len(x) != req {
+			return false, fmt.Sprintf("x has %d octets, %s needs %d", len(x), crv, req), vals
+		}
+		if d, has := vals["d"]; has {
+			if len(d) != req {
+				return false, fmt.Sprintf("d has %d octets, %s needs %d", len(d), crv, req), vals
+			}
+			var pub []byte
+			switch crv {
+			case "Ed25519":
+				pub = c08Ed25519Pub(d)
+			case "Ed448":
+				pub = c08cached("ed448", d, c08Ed448Pub)
+			case "X25519":
+				pub = c08X25519Pub(d)
+			case "X448":
+				pub = c08cached("x448", d, c08X448Pub)
+			}
+			if !bytes.Equal(pub, x) {
+				return false, "d does not generate x", vals
+			}
+		}
+		return true, "", vals
+	case "oct":
+		_, has := vals["k"]
+		return has, "k missing", vals
+	case "ec":
+		x, y := bigOf("x"), bigOf("y")
+		if x == nil || y == nil {
+			return false, "x or y missing", vals
+		}
+		if x.Sign() == 0 || y.Sign() == 0 {
+			return false, "zero coordinate", vals
+		}
+		if w := c09ECConsistent(crv, x, y, bigOf("d")); w != "" {
+			return false, w, vals
+		}
+		return true, "", vals
+	case "rsa":
+		n, e := bigOf("n"), bigOf("e")
+		if n == nil || e == nil || n.Sign() <= 0 || e.Cmp(big2) < 0 || e.BitLen() > 31 {
+			return false, "bad public parameters", vals
+		}
+		if d := bigOf("d"); d != nil {
+			p, q := bigOf("p"), bigOf("q")
+			if p == nil || q == nil {
+				return false, "primes missing", vals
+			}
+			k := &rsa.PrivateKey{PublicKey: rsa.PublicKey{N: n, E: int(e.Int64())}, D: d, Primes: []*big.Int{p, q}}
+			if w := c09RSAConsistent(k); w != "" {
+				return false, w, vals
+			}
+			if new(big.Int).GCD(nil, nil, p, q).Cmp(big.NewInt(1)) != 0 {
+				return false, "primes not coprime", vals
+			}
+			one := big.NewInt(1)
+			if v := bigOf("dp"); v != nil && v.Cmp(new(big.Int).Mod(d, new(big.Int).Sub(p, one))) != 0 {
+				return false, "dp inconsistent", vals
+			}
+			if v := bigOf("dq"); v != nil && v.Cmp(new(big.Int).Mod(d, new(big.Int).Sub(q, one))) != 0 {
+				return false, "dq inconsistent", vals
+			}
+			if v := bigOf("qi"); v != nil && v.Cmp(new(big.Int).ModInverse(q, p)) != 0 {
+				return false, "qi inconsistent", vals
+			}
+		}
+		return true, "", vals
+	}
+	return false, "unknown kty", vals
+}
+
+var big2 = big.NewInt(2)
+
+// c09KeyOctets: the octets goat holds for the members c09IndependentJWK reports (minimal-length for integers)
+func c09KeyMatchesOctets(k *jwk.Key, vals map[string][]byte) string {
+	intEq := func(name string, v *big.Int) string {
+		if b, ok := vals[name]; ok && (v == nil || new(big.Int).SetBytes(b).Cmp(v) != 0) {
+			return name + " differs from the octets of the JWK"
+		}
+		return ""
+	}
+	switch pub := k.PublicKey().(type) {
+	case ed25519.PublicKey:
+		if !bytes.Equal(pub, vals["x"]) {
+			return "x differs from the octets of the JWK"
+		}
+	case ed448.PublicKey:
+		if !bytes.Equal(pub, vals["x"]) {
+			return "x differs from the octets of the JWK"
+		}
+	case x25519.PublicKey:
+		if !bytes.Equal(pub, vals["x"]) {
+			return "x differs from the octets of the JWK"
+		}
+	case x448.PublicKey:
+		if !bytes.Equal(pub, vals["x"]) {
+			return "x differs from the octets of the JWK"
+		}
+	case *ecdsa.PublicKey:
+		if w := intEq("x", pub.X) + intEq("y", pub.Y); w != "" {
+			return w
+		}
+		if p, ok := k.PrivateKey().(*ecdsa.PrivateKey); ok {
+			return intEq("d", p.D)
+		}
+	case *rsa.PublicKey:
+		if w := intEq("n", pub.N) + intEq("e", big.NewInt(int64(pub.E))); w != "" {
+			return w
+		}
+		if p, ok := k.PrivateKey().(*rsa.PrivateKey); ok {
+			return intEq("d", p.D) + intEq("p", p.Primes[0]) + intEq("q", p.Primes[1])
+		}
+	case nil:
+		if b, ok := k.PrivateKey().([]byte); ok && !bytes.Equal(b, vals["k"]) {
+			return "k differs from the octets of the JWK"
+		}
+	}
+	if d, ok := vals["d"]; ok {
+		var seed []byte
+		switch p := k.PrivateKey().(type) {
+		case ed25519.PrivateKey:
+			seed = p[:len(p)/2]
+		case ed448.PrivateKey:
+			seed = p[:len(p)/2]
+		case x25519.PrivateKey:
+			seed = p[:len(p)/2]
+		case x448.PrivateKey:
+			seed = p[:len(p)/2]
+		default:
+			return ""
+		}
+		if !bytes.Equal(seed, d) {
+			return "d differs from the octets of the JWK"
+		}
+	}
+	return ""
+}
+
+// c09GenB64: a valid key, ONE base64url member re-encoded with true length required-1 / required / required+1 (OKP x, d and
+// oct k; other members keep their length) and re-spelled.
+func c09GenB64Case(r *vf.Rand, m c08Mat, member, lenVar, spelling string) c09Case {
+	j := m.rfcMembers()
+	str, _ := j[member].(string)
+	b, _ := c09B64Decode(str)
+	switch lenVar {
+	case "short":
+		if len(b) > 0 {
+			b = b[:len(b)-1]
+		}
+	case "long":
+		b = append(append([]byte{}, b...), r.Bytes(1)...)
+	}
+	j[member] = c09Spell(b, spelling)
+	return c09Case{Surface: "jwk", Mat: m, Mut: "b64:" + member + ":" + lenVar + ":" + spelling, JWK: j}
+}
+
+func c09B64Mat(r *vf.Rand, kind string) c08Mat {
+	switch kind {
+	case "ec":
+		return c08GenEC(r, vf.Pick(r, c08Curves), true)
+	case "rsa":
+		m := c08GenRSAMat(r, true)
+		for len(m.P) != 2 {
+			m = c08GenRSAMat(r, true)
+		}
+		m.Pre = true
+		return m
+	case "okp":
+		return c08GenOKP(r, vf.Pick(r, c08OKPs), r.Intn(3) != 0)
+	}
+	return c08Mat{Kind: "oct", Priv: true, K: r.Bytes(1 + r.Intn(40))}
+}
+
+func c09GenB64(r *vf.Rand) c09Case {
+	kind := vf.Pick(r, []string{"okp", "okp", "okp", "ec", "rsa", "oct"})
+	m := c09B64Mat(r, kind)
+	members := c09B64Members[kind]
+	member := vf.Pick(r, members)
+	if _, has := m.rfcMembers()[member]; !has {
+		member = members[0]
+	}
+	lenVar := "exact"
+	if kind == "okp" || kind == "oct" || r.Intn(4) == 0 {
+		lenVar = vf.Pick(r, []string{"short", "exact", "exact", "long"})
+	}
+	return c09GenB64Case(r, m, member, lenVar, vf.Pick(r, c09Spellings))
+}
+
+// ---------------------------------------------------------------------------------------------
 // JWK mutations
 
 func c09b64big(v *big.Int, n int) string {
@@ -762,6 +1089,32 @@ func execC09(c *vf.Ctx, d *vf.Driver, cs c09Case) {
 		mw, merr := d.Call("c08.parse", []vf.Wire{vf.FromJSON(obj)}, StdOracle)
 		mOut, mKey := c08ModelOut(mw, merr)
 		c.Case(string(kb), goOut.Tag != "err" || (goOut.Cls != "missing" && goOut.Cls != "type"))
+		if strings.HasPrefix(cs.Mut, "b64:") {
+			// law: the decoding oracle = the hand-written decoder (text with CR/LF removed, raw URL alphabet, no padding)
+			for _, name := range c09B64Members[cs.Mat.Kind] {
+				if str, ok := cs.JWK[name].(string); ok {
+					ob, oerr := c08b64.DecodeString(str)
+					hb, hok := c09B64Decode(str)
+					if (oerr == nil) != hok || (hok && !bytes.Equal(ob, hb)) {
+						c08Fail(c, "property", "c09-law-b64-tolerance", "encoding/base64 and the hand-written base64url decoder disagree on "+fmt.Sprintf("%q", str), cs,
+							fmt.Sprintf("%x %v", ob, oerr), fmt.Sprintf("%x %v", hb, hok))
+					}
+					c.Count("law:b64-decoder-agrees")
+				}
+			}
+			wantOK, why, vals := c09IndependentJWK(cs.JWK)
+			parts := strings.Split(cs.Mut, ":")
+			c.Count(fmt.Sprintf("b64:%s:%s:accepted=%v", parts[2], strings.Split(parts[3], "@")[0], goOut.Tag == "ok"))
+			if wantOK && goOut.Tag != "ok" {
+				c08Fail(c, "property", "c09-b64-valid-rejected:"+cs.Mat.Kind, "a JWK whose members are valid under goat's base64 tolerance is rejected ("+cs.Mut+")", cs, goOut.String(), "ok")
+			} else if !wantOK && goOut.Tag == "ok" {
+				c08Fail(c, "property", "c09-b64-spelling-accepted:"+cs.Mat.Kind, "accepted although "+why+" ("+cs.Mut+")", cs, "ok", "rejected")
+			} else if goOut.Tag == "ok" && k != nil {
+				if w := c09KeyMatchesOctets(k, vals); w != "" {
+					c08Fail(c, "property", "c09-b64-octets-differ:"+cs.Mat.Kind, "accepted key: "+w+" ("+cs.Mut+")", cs, "accepted", w)
+				}
+			}
+		}
 		if strings.HasPrefix(cs.Mut, "chain-") {
 			if _, has := cs.JWK["x5c"]; has {
 				// independent expectation: a genuine chain is accepted iff the thumbprints are absent or those of x5c[0]
@@ -1350,8 +1703,10 @@ func genC09(r *vf.Rand, i int) c09Case {
 		return c09GenSet(r, int64(i)*100+5)
 	case 10, 11, 12, 13, 14:
 		return c09GenCOSE(r)
-	case 15, 16, 17:
+	case 15, 16:
 		return c09GenGo(r)
+	case 17:
+		return c09GenB64(r)
 	}
 	return c09GenPEM(r, int64(i)*100+5)
 }
@@ -1393,6 +1748,26 @@ func runC09(c *vf.Ctx) {
 		add(c08GenOKP(sr, crv, true), c09OKPMuts)
 	}
 	add(c08Mat{Kind: "oct", Priv: true, K: sr.Bytes(16)}, []string{"none"})
+	// base64 spellings: every base64url member of every key type (every OKP curve) x every spelling, at the true lengths
+	// required-1 / required / required+1 for the length-checked members
+	var b64mats []c08Mat
+	for _, crv := range c08OKPs {
+		b64mats = append(b64mats, c08GenOKP(sr, crv, true))
+	}
+	b64mats = append(b64mats, c09B64Mat(sr, "ec"), c09B64Mat(sr, "rsa"), c09B64Mat(sr, "oct"))
+	for _, m := range b64mats {
+		for _, member := range c09B64Members[m.Kind] {
+			lens := []string{"exact"}
+			if m.Kind == "okp" || m.Kind == "oct" {
+				lens = []string{"short", "exact", "long"}
+			}
+			for _, lv := range lens {
+				for _, sp := range c09Spellings {
+					sys = append(sys, c09GenB64Case(sr, m, member, lv, sp))
+				}
+			}
+		}
+	}
 	for _, mut := range c09GoMuts {
 		for i := 0; i < 4; i++ {
 			cs := c09GenGo(sr)
